@@ -390,6 +390,7 @@ func suiteC08(cfg Config, res *Result) {
 // --- calls ---------------------------------------------------------------------------
 
 func suiteC08Calls(cfg Config, res *Result) {
+	defer c08MixedCallees(res)
 	res.Rule = "every function of the catalogue (23 signatures: no/one/two parameters, variadic, *Value parameters, implicit *ExecutionContext, interface parameters, (T, error) results failing and succeeding, *Value results incl. safe, 0/3 results, second result not an error, slice/map/struct parameters) and every method of the harness struct (value and pointer receivers, through values, pointers and nil pointers) and of its named string / int types x argument lists of length 0..3 drawn from literals and context values of every type; expected outcome computed by calling the Go function directly when the arguments fit its signature (and an execution error otherwise); oracle: `{{ f(args) }}` renders like the result bound directly / is an execution error; also compared with the Lean model's call protocol; non-trivial = all; distinct by call"
 	rng := NewRNG(cfg.Seed)
 	n := 4000
